@@ -495,6 +495,52 @@ def make_mp_data(boundary, rest, kind, framing):
     return checked(q)
 
 
+# A part may announce a charset of its own (RFC 7578 4.5).  The names are what a client can write there: text codecs,
+# names python knows as non-text codecs (bytes-to-bytes, str-to-str), names nobody knows, odd spellings.
+PART_CHARSETS = [b"utf-8", b"UTF-8", b"latin-1", b"iso-8859-1", b"ascii", b"utf-16", b"hex", b"base64", b"rot13", b"zlib", b"bz2",
+                 b"undefined", b"idna", b"punycode", b"unicode_escape", b"raw_unicode_escape", b"mbcs", b"no-such-codec", b"", b'"utf-8"',
+                 b"utf-8; charset=hex", b"x" * 40, b"utf_8_sig", b"uu", b"quopri"]
+
+
+def make_mp_charset(kind, framing, where):
+    """a text part (or an upload) whose own Content-Type line carries `; charset=<name>`, name from PART_CHARSETS (solver
+    index), two fully symbolic data bytes.  O1 as everywhere; a delivered text value is the part's data under utf-8
+    (what ombott does: the parameter is ignored) or under the announced charset."""
+    opts = b'; name="f"' + (b'; filename="a"' if kind == "files" else b"")
+    head = b'--b\r\n' + CD + b": form-data" + opts + CRLF + b"Content-Type: text/plain; "
+    tail = CRLF + b"--b--" + CRLF
+
+    def q(ci: int, h: bytes):
+        assume(0 <= ci < len(PART_CHARSETS) and len(h) == 2)
+        cs = PART_CHARSETS[ci]
+        param = {"charset": b"charset=" + cs, "upper": b"CHARSET=" + cs, "second": b"format=flowed; charset=" + cs}[where]
+        sent = Sent(head + param + CRLF + CRLF, h, tail)
+        stream, env = framed(sent.pieces(3, 3), sent, framing, MP_CTYPE % "b")
+        res = serve(kind, stream, 256, env)
+        fail, cls = judge_status(res)
+        if fail:
+            return fail, observed(res)
+        cover("status-%sxx" % cls)
+        if cls == "2":
+            if len(res.seen) != 1:
+                return "2xx but the handler did not finish: %r" % (res.seen,), observed(res)
+            for v in delivered_values(res.seen[0]):
+                if isinstance(v, bytes):
+                    ok = v == h
+                else:
+                    ok = v.encode("utf-8") == h
+                    if not ok:
+                        try:
+                            ok = v.encode(cs.decode("ascii").strip('"')) == h
+                        except Exception:  # noqa
+                            ok = False
+                if not ok:
+                    return "part announcing charset %r with data %r delivered as %r" % (cs, h, v), observed(res)
+                cover("delivered")
+        return None, observed(res)
+    return checked(q)
+
+
 def make_mp_any(n, kind, framing):
     """every byte string up to n bytes as a multipart body"""
     def q(b: bytes):
@@ -1003,6 +1049,15 @@ def queries(tier):
             "multipart skeleton %r sent whole with every smaller Content-Length (symbolic): the text is the declared "
             "prefix; buffer in [len-1, len]" % tag, 150 if not T else 400, ["status-4xx", "status-2xx"], "mp/declared",
             {"skeleton": tag, "handler": kind})
+    for kind, framing, where in ([("forms", "cl", "charset")] if not T else
+                                 [("forms", "cl", "charset"), ("forms", "chunked", "upper"), ("files", "cl", "charset"),
+                                  ("forms", "cl", "second")]):
+        add("mp/charset/%s/%s/%s" % (kind, framing, where), make_mp_charset(kind, framing, where),
+            "one %s part whose own Content-Type line carries a charset parameter (spelling %r) naming one of %d charsets "
+            "(solver index: text codecs, non-text codecs hex/base64/rot13/zlib, unknown names, odd spellings) and two fully "
+            "symbolic data bytes; handler reads request.%s; %s framing" % (
+                "upload" if kind == "files" else "text", where, len(PART_CHARSETS), kind, framing),
+            200 if not T else 600, ["status-2xx", "delivered"], "mp/charset", {"handler": kind, "framing": framing, "where": where})
     for n, kind, framing in ([(1, "forms", "cl")] if not T else [(3, "forms", "cl"), (2, "files", "chunked")]):
         add("mp/any/%s/%s/len%d" % (kind, framing, n), make_mp_any(n, kind, framing),
             "every byte string of length <= %d as the body of a multipart request (boundary b), handler reads request.%s, "
